@@ -62,11 +62,13 @@ pub fn run(ctx: &mut Ctx) {
         g.allow_errors = i % 4 == 0;
         // partials: p1 writes and assigns, p2 loops
         // no recursion between partials: p1 uses none, p2 may use p1
+        g.dynamic_names = false;
         g.partials = vec![];
         let p1 = g.body(1, 3);
         g.partials = vec!["p1".into()];
         let p2 = g.body(2, 2);
         g.partials = vec!["p1".into(), "p2".into()];
+        g.dynamic_names = true;
         let partials: Vec<PartialDef> = vec![("p1".into(), Ok(p1)), ("p2".into(), Ok(p2))];
         let t = g.body(3, 4);
         let mut data = g.data();
